@@ -126,6 +126,8 @@ func (ap *AttestationPool) AddAttestation(ctx context.Context, att *phase0.Attes
 			// this aggregate adds additional participants compared to the total we had before, keep it!
 			existing.Aggregates = append(existing.Aggregates,
 				Aggregate{Participants: att.AggregationBits, Sig: att.Signature})
+			// the total now also covers the new participants
+			existing.Participants.Or(att.AggregationBits)
 
 			// remember the participants attested this epoch
 			key := Assignment{Index: 0, Epoch: att.Data.Target.Epoch}
